@@ -160,7 +160,7 @@ func (p *printer) emit(n *Node, wrap, isRoot bool) {
 			if i > 0 {
 				p.kwd("OR", id)
 			}
-			if p.o.LstPar[id]&(1<<uint(i)) != 0 {
+			if i < 30 && p.o.LstPar[id]&(1<<uint(i)) != 0 {
 				p.sym("(", id)
 				p.term(v, id)
 				p.sym(")", id)
